@@ -250,6 +250,7 @@ static void post_step (int from_error)
   VERIF_ASSERT ("VM.STACK.sp_inside_stack", sp >= start_of_stack - 1 && sp < end_of_stack + 5);
 #ifdef CALL_INHERITED
   VERIF_ASSERT ("C07.call_inherited.runs_the_inherited_function", !from_error && current_prog == &PARENT && pc >= PCODE + 2 && pc <= PCODE + 4);
+  { extern int verif_sif_calls, verif_sif_index; VERIF_ASSERT ("C07.call_inherited.frame_built_once_for_the_named_function", verif_sif_calls == 1 && verif_sif_index == 0); }
   VERIF_ASSERT ("C07.call_inherited.function_offset_accumulates", function_index_offset == F0 + INH[0].function_index_offset);
   VERIF_ASSERT ("C07.call_inherited.variable_offset_accumulates", variable_index_offset == V0 + INH[0].variable_index_offset);
   VERIF_ASSERT ("C07.call_inherited.caller_frame_saved", csp->prog == &PROG && csp->function_index_offset == F0 && csp->variable_index_offset == V0);
